@@ -181,7 +181,8 @@ def run(ctx):
         for std in stds:
             jobs.append((name, std, (3, 6, 12) if name in KNOWN_EXPONENTIAL else xsizes if name in EXPR_NEST else sizes))
             if name not in KNOWN_EXPONENTIAL:
-                for n in csizes:
+                # (the correspondence harness wraps Base.__new__, which costs C stack: shallow nests only)
+                for n in ((2, 4) if name in EXPR_NEST else csizes):
                     cc.append((std, fam[1](n), dict(ignore_comments=name != "comment_seq")))
     # Leg C: the model's constructor-call count and statement-level match count are EXACTLY those of the
     # implementation on the catalogue programs (reader-level calls)
